@@ -44,6 +44,15 @@ class P:
         parts = [term(x) for x in a] + [f"{kk}={term(v)}" for kk, v in sorted(k.items())]
         return P(f"{self.t}({', '.join(parts)})")
 
+    def __format__(self, spec):
+        return f"<{self.t}:{spec}>"
+
+    def __str__(self):
+        return f"<str {self.t}>"
+
+    def __repr__(self):
+        return f"<repr {self.t}>"
+
     def __getitem__(self, i):
         if isinstance(i, slice):
             return P(f"{self.t}[{term(i.start)}:{term(i.stop)}:{term(i.step)}]")
